@@ -44,14 +44,15 @@ theorem window (raw : Raw) (e : Env) :
     (sysCfg raw e).node.maxTtl ≤ 86400 ∧ maxNs (sysCfg raw e) ≤ dayNs ∧ ChunkStore.SaneCfg (sysCfg raw e).node :=
   ⟨min_pos raw e, min_le_max raw e, max_le_day raw e, maxNs_le_day raw e, sane raw e.cleanup⟩
 
-/-- the hand-written TTL functions of the node model are the generated ones -/
-theorem ttl_functions_agree (raw : Raw) (e : Env) (ttl t W E : Int) :
+/-- the hand-written TTL functions of the node model are the generated ones (`prevShard`: the deadline of a key-share
+    record already in the table, which `publish_shards` ignores — any value) -/
+theorem ttl_functions_agree (raw : Raw) (e : Env) (ttl t W E prevShard : Int) :
     ChunkStore.nodeTtl (sysCfg raw e).node ttl = Gen.C02.store_chunk_put_ttl ttl (Ttl.effective raw) ∧
     manifestTtl (sysCfg raw e) W E = Gen.C02.manifest_ttl E (Ttl.effective raw) W ∧
     advertised (sysCfg raw e) ttl t = Gen.C02.announce_advertised_ttl ttl t (Ttl.effective raw) ∧
-    storeLifetimes (sysCfg raw e) ttl = Ttl.storeChunk raw ttl W E :=
+    storeLifetimes (sysCfg raw e) ttl = Ttl.storeChunk raw ttl W E prevShard :=
   ⟨nodeTtl_bridge raw e.cleanup ttl, manifestTtl_bridge raw e W E, advertised_bridge raw e ttl t,
-   storeLifetimes_bridge raw e ttl W E⟩
+   storeLifetimes_bridge raw e ttl W E prevShard⟩
 
 /-! ### (1) ephemerality -/
 
@@ -95,7 +96,7 @@ theorem ephemerality_bound (raw : Raw) (e : Env) (t0 : Int) (ops : List Op) (hw 
   · intro x hx; exact ⟨hi.shards x hx, by have := hy.shards x hx; omega⟩
   · -- C01.reads_exact on the projected history
     intro c r hg
-    have hag := agree_reach (sysCfg raw e) t0 ops
+    have hag := agree_reach (sysCfg raw e) rfl t0 ops
     have hre := (C01.reads_exact (sysCfg raw e).node (sane raw e.cleanup) t0 [] (c01Hist ops) c).2.2.1
     have hnow := (C01.reads_exact (sysCfg raw e).node (sane raw e.cleanup) t0 [] (c01Hist ops) c).1
     rw [← hag.recs, ← hag.now, hg] at hre
@@ -146,7 +147,7 @@ theorem chunk_ephemeral (raw : Raw) (e : Env) (t0 : Int) (pre post : List Op) (c
   have hb := C02.store_deadline_bound raw ttl t (t + e.wallOff)
   obtain ⟨en, hlast, hdl⟩ := last_after_store raw e t0 pre post c ttl hint hpost
   have hrel := node_rel raw e t0 (pre ++ Op.store c ttl hint :: post)
-  have hag := agree_reach (sysCfg raw e) t0 (pre ++ Op.store c ttl hint :: post)
+  have hag := agree_reach (sysCfg raw e) rfl t0 (pre ++ Op.store c ttl hint :: post)
   have hi : Inv (sysCfg raw e) s := inv_run (r := Run.init _ t0) (inv_init _ t0) _ hw.wf
   have hexp : ∀ r, (c, r) ∈ s.recs → r.expires = d := by
     intro r hr
